@@ -183,8 +183,10 @@ class ListeningConnection(Connection):
             incoming=True
         )
         connection._reader, connection._writer = reader, writer
-        await self.network.on_peer_accepted(connection)
+        # The connection is connected at this point. The state needs to be set
+        # before the initialization: the connection could get closed during it
         await connection.set_state(ConnectionState.CONNECTED)
+        await self.network.on_peer_accepted(connection)
 
 
 class DataConnection(Connection, abc.ABC):
